@@ -24,6 +24,7 @@ import (
 const (
 	unitPES = iota
 	unitPSI
+	unitPrivate // neither PES nor PSI: must produce nothing
 )
 
 type unitModel struct {
@@ -293,6 +294,18 @@ func drawStream(t *rapid.T, o streamOpts) *streamModel {
 			add(drawPESUnit(t, pid, ccOf(pid), o, fmt.Sprintf("pes%x_%d", pid, k)))
 		}
 	}
+	if gen.Chance(t, 30, "privatepid") {
+		// a PID carrying private data whose units begin with near misses of the PES start code: nothing may be delivered
+		pid := drawPID("privpid")
+		nu := 1 + gen.Uniform(t, 3, "nupriv")
+		for k := 0; k < nu; k++ {
+			u := &unitModel{pid: pid, kind: unitPrivate}
+			prefix := [][]byte{{0x01, 0x00, 0x01}, {0x00, 0x01, 0x01}, {0x00, 0x00, 0x00}, {0x00, 0x00, 0x02}, {0x80, 0x00, 0x01}, {0x00, 0x80, 0x01}, {0x00, 0x00, 0x81}, {0x02, 0x00, 0x01}, {0x00, 0x02, 0x01}, {0xff, 0xff, 0xff}}[gen.Uniform(t, 10, "privprefix")]
+			u.payload = append(append([]byte{}, prefix...), gen.Bytes(t, rapid.IntRange(0, 400).Draw(t, "privlen"), "privbody")...)
+			u.packets = ref.PacketizeUnit(pid, u.payload, ccOf(pid), ref.PktOpts{Sizes: chunking(t, len(u.payload), 0, "privch")})
+			add(u)
+		}
+	}
 	if o.siPIDs {
 		for _, k := range siKinds {
 			if gen.Chance(t, 25, fmt.Sprintf("si%d", k)) {
@@ -419,6 +432,8 @@ func (m *streamModel) describe() string {
 		for _, u := range m.perPID[pid] {
 			if u.kind == unitPES {
 				s += fmt.Sprintf(" PES(%dB/%dpk len=%d)", len(u.payload), len(u.packets), u.pes.EncodedLength())
+			} else if u.kind == unitPrivate {
+				s += fmt.Sprintf(" private(%dB/%dpk starts %x)", len(u.payload), len(u.packets), u.payload[:3])
 			} else {
 				s += fmt.Sprintf(" %s(%dsec/%dB/%dpk)", kindNames[u.tableKnd], len(u.sections), len(u.payload), len(u.packets))
 			}
